@@ -373,9 +373,15 @@ func (c *Ctx) finish() int {
 		"wall_s":      float64(int(wall*100)) / 100,
 		"violations":  len(c.violations),
 	}
-	os.MkdirAll(filepath.Join(c.Root, "evidence"), 0o755)
+	// runs against another checkout (VERIF_REPO: seeded changes) keep their evidence and
+	// replays apart from those of the registered commands
+	evDir, rpDir := filepath.Join(c.Root, "evidence"), filepath.Join(c.Root, "replays")
+	if os.Getenv("VERIF_REPO") != "" {
+		evDir, rpDir = filepath.Join(c.Root, "scratch", "other-repo", "evidence"), filepath.Join(c.Root, "scratch", "other-repo", "replays")
+	}
+	os.MkdirAll(evDir, 0o755)
 	data, _ := json.MarshalIndent(ev, "", " ")
-	os.WriteFile(filepath.Join(c.Root, "evidence", c.ID+".json"), data, 0o644)
+	os.WriteFile(filepath.Join(evDir, c.ID+".json"), data, 0o644)
 
 	for _, f := range c.findings {
 		if f.Property == c.ID && f.Status == "known" {
@@ -389,7 +395,7 @@ func (c *Ctx) finish() int {
 	fmt.Printf("%s %s seed=%d: evaluations=%d distinct_nontrivial=%d violations=%d wall=%.1fs\n",
 		c.ID, c.Tier, c.Seed, c.counters["evaluations"], len(c.distinct["nontrivial"]), len(c.violations), wall)
 	if len(c.violations) > 0 {
-		dir := filepath.Join(c.Root, "replays", c.ID)
+		dir := filepath.Join(rpDir, c.ID)
 		os.MkdirAll(dir, 0o755)
 		for _, v := range c.violations {
 			h := sha1.Sum([]byte(v.Key))
